@@ -42,6 +42,7 @@ pub fn run_c10(run: &mut Run, replay: Option<&std::path::Path>) -> anyhow::Resul
                     0 | 1 => plan.push(("known".into(), peer, (*rng.pick(&["high", "allowed", "never", "never", "remove"])).to_string())),
                     2..=5 => plan.push(("arrive".into(), peer, String::new())),
                     6 | 7 => plan.push(("dial".into(), peer, String::new())),
+                    8 if rng.chance(1, 2) => plan.push(("stuck".into(), peer, String::new())),
                     _ => plan.push(("disconnect".into(), peer, String::new())),
                 }
             }
@@ -62,6 +63,18 @@ pub fn run_c10(run: &mut Run, replay: Option<&std::path::Path>) -> anyhow::Resul
             }
             let mut out = vec![(format!("listener.reset limit={}", limit.map(|x| x.to_string()).unwrap_or_else(|| "none".into())), "ok".to_string(), None)];
             let mut aff: std::collections::HashMap<u16, String> = Default::default();
+            // a dialer whose handshake with the listener can never complete (it grants no unidirectional
+            // streams, so the listener's acknowledgement cannot be sent): its attempts pass the admission
+            // decision, time out, and must leave no trace in the listener's capacity
+            let stuck = {
+                let mut c = config_idle(3_600_000);
+                let mut q = anemo::QuicConfig::default();
+                q.max_idle_timeout_ms = Some(3_600_000);
+                q.max_concurrent_uni_streams = Some(0);
+                c.quic = Some(q);
+                c.connectivity_check_interval_ms = Some(600_000);
+                start_node(&fabric, seed, max_peer + 5, c)?
+            };
             for (opi, (kind, peer, a)) in plan.iter().enumerate() {
                 let d = &dialers[(*peer - 2) as usize];
                 match kind.as_str() {
@@ -109,6 +122,14 @@ pub fn run_c10(run: &mut Run, replay: Option<&std::path::Path>) -> anyhow::Resul
                             problem = Some("a rejected dialer is listed".into());
                         }
                         out.push((format!("listener.arrive peer={peer}"), format!("{class} count={count}"), problem));
+                    }
+                    "stuck" => {
+                        let r = tokio::time::timeout(Duration::from_secs(40), stuck.net.connect(l.addr)).await;
+                        tokio::time::sleep(Duration::from_millis(1500)).await;
+                        if matches!(r, Ok(Ok(_))) && l.net.peers().contains(&stuck.id) {
+                            // (would be an ordinary arrival then; it is not one in any run so far)
+                            return Err(anyhow::anyhow!("the stuck dialer got connected: the scenario's premise does not hold"));
+                        }
                     }
                     "dial" => {
                         let r = tokio::time::timeout(Duration::from_secs(30), l.net.connect(d.addr)).await;
